@@ -410,6 +410,65 @@ async fn post_handshake(ctx: &mut Ctx, ty: &str, cut: &str, fault: &str, order: 
 /// A peer comes back under the identity it announced while the socket still holds its old
 /// connection (ended but not yet noticed, or even still open - a half-open leftover): the
 /// old connection must be released, the new one must work, nobody else is disturbed.
+/// REQ with several servers; the one whose turn it is has a connection that fails writes.
+/// Whatever the send reports, a request that reaches a live server is exactly
+/// [delimiter, payload] and every live server keeps being served in rotation.
+async fn req_dead_peer_at_the_head(ctx: &mut Ctx, kind: WriteFail, nlive: usize, case: &Value) {
+    let mut sock = Sock::new("REQ", None);
+    let Ok(dead) = Peer::attach(&sock, "REP", Some(b"dead-head")).await else {
+        ctx.inconclusive("C16 attach".into());
+        return;
+    };
+    let mut live = Vec::new();
+    for k in 0..nlive {
+        match Peer::attach(&sock, "REP", Some(format!("live{k}").as_bytes())).await {
+            Ok(p) => live.push(p),
+            Err(_) => {
+                ctx.inconclusive("C16 attach".into());
+                return;
+            }
+        }
+    }
+    dead.conn.fail_writes(kind);
+    let mut served = vec![0usize; nlive];
+    for k in 0..(2 * nlive + 2) as u32 {
+        let q = rc::tagged(60, k, &[4]);
+        let r = sim::complete(sock.send(&q)).await;
+        let mut want: Frames = vec![vec![]];
+        want.extend(q.clone());
+        for (i, p) in live.iter().enumerate() {
+            let msgs = p.out_msgs().unwrap_or_default();
+            if msgs.len() > served[i] {
+                if msgs.len() != served[i] + 1 || msgs[served[i]] != want {
+                    ctx.violation_with(
+                        "C16/live-peer-disturbed/REQ",
+                        format!(
+                            "REQ with {nlive} live servers and one whose connection fails writes ({kind:?}) at the head of the rotation; request #{k}: live server {i} received {:?}, expected exactly {}",
+                            msgs[served[i]..].iter().map(|m| rc::frames_summary(m)).collect::<Vec<_>>(),
+                            rc::frames_summary(&want)
+                        ),
+                        case.clone(),
+                    );
+                    return;
+                }
+                served[i] += 1;
+                let mut w = vec![vec![]];
+                w.extend(rc::tagged(61, k, &[1]));
+                p.send(&w);
+                let _ = recv_now(&mut sock).await;
+            }
+        }
+        let _ = r;
+    }
+    if nlive > 0 && served.iter().any(|c| *c == 0) {
+        ctx.violation_with("C16/live-peer-disturbed/REQ", format!("live servers served {served:?} in {} requests after a server's connection failed", 2 * nlive + 2), case.clone());
+        return;
+    }
+    if dead.conn.write_err_observed() {
+        ctx.count("req_write_failures_at_the_head_of_the_rotation");
+    }
+}
+
 /// PUB/XPUB: a subscriber's connection fails writes at the moment its buffer is at the
 /// high-water mark (the only moment a publisher looks at a write result). That failure is
 /// the subscriber's alone: publishing goes on returning Ok and the other subscribers get
@@ -896,6 +955,13 @@ impl Prop for C16 {
                     }
                 }
             }
+            if ty == "REQ" {
+                for kind in ["BrokenPipe", "ConnectionReset"] {
+                    for nlive in [1usize, 2, 4] {
+                        v.push(json!({"kind": "req_dead_head", "ty": ty, "fail": kind, "live": nlive}));
+                    }
+                }
+            }
             if matches!(ty, "PUB" | "XPUB") {
                 for kind in ["BrokenPipe", "ConnectionReset", "WriteZero"] {
                     for nlive in [1usize, 3, 6] {
@@ -952,6 +1018,11 @@ impl Prop for C16 {
             "post" => {
                 ctx.eval(1, true);
                 sim::run(post_handshake(ctx, &ty, s(case, "cut"), s(case, "fault"), s(case, "order"), u(case, "live") as usize, case));
+            }
+            "req_dead_head" => {
+                ctx.eval(hash_str(&case.to_string()), true);
+                let kind = if s(case, "fail") == "BrokenPipe" { WriteFail::BrokenPipe } else { WriteFail::ConnectionReset };
+                sim::run(req_dead_peer_at_the_head(ctx, kind, u(case, "live") as usize, case));
             }
             "pub_hwm_fail" => {
                 ctx.eval(hash_str(&case.to_string()), true);
@@ -1020,6 +1091,7 @@ impl Prop for C16 {
             ("order/write-first", 400),
             ("live_peer_talking_when_the_end_is_noticed", 200),
             ("pub_subscriber_write_failures_at_the_high_water_mark", 12),
+            ("req_write_failures_at_the_head_of_the_rotation", 4),
             ("end_observed", 700),
             ("observed_by_write_error", 100),
             ("errors_per_event/1", 100),
